@@ -759,3 +759,20 @@ func valueOf(in ssa.Instruction) ssa.Value {
 	v, _ := in.(ssa.Value)
 	return v
 }
+
+// stripW strips interface/type changes and widening (or same-width) integer conversions.
+func stripW(v ssa.Value) ssa.Value {
+	for {
+		v = strip(v)
+		c, ok := v.(*ssa.Convert)
+		if !ok {
+			return v
+		}
+		to, _, ok1 := intBits(c.Type())
+		from, _, ok2 := intBits(c.X.Type())
+		if !ok1 || !ok2 || to < from {
+			return v
+		}
+		v = c.X
+	}
+}
